@@ -539,6 +539,14 @@ func runC10(s *Svc, m *spec.Method, tier string) *MethodResult {
 		r.HarnessErr = append(r.HarnessErr, "mount gRPC: "+err.Error())
 		return r
 	}
+	switch m.Feat["family"] {
+	case "G-streamval": // validated streamed messages (c10streamval.go)
+		runC10StreamVal(g, m, tier, r)
+		return r
+	case "G-reuse": // one generated client, many calls (c10reuse.go)
+		runC10Reuse(g, m, tier, r)
+		return r
+	}
 	if m.StreamPayload != nil || m.StreamResult != nil {
 		runC10Stream(g, m, tier, r)
 		return r
